@@ -50,7 +50,7 @@ PROPS['C07'] = dict(level='proof', steps=[V('reader'), V('writer'), E3('c07-hist
                 text='Xref::merge never replaces an existing (newer) entry and adds every other one; incremental save emits the previous bytes unchanged followed by exactly one well-formed revision; startxref discovery takes the last occurrence (all unbounded, Verus). The Prev-chain loop and object-stream merge inside Reader::read are exercised on bounded histories only.',
                 note='Reader::read (Prev loop, object-stream merge) is not under contract: bounded stand-in; nom parsers trusted')
 
-PROPS['C04'] = dict(level='proof', steps=[V('stream'), V('reader'), E3('c04-hostile')],
+PROPS['C04'] = dict(level='proof', steps=[V('stream'), V('reader'), E3('c04-hostile'), E3('c04-depth', profile='dev')],
                 title='Parsing untrusted bytes never panics, aborts or hangs',
                 technique='Verus robustness obligations (overflow, bounds, unwrap, termination, allocation bound) on the byte-level decoders that are not nom combinators; worker-process sweeps of hostile inputs for the rest',
                 text='for every input: PNG predictor decoding, predictor geometry, ASCII85 decoding and startxref search neither overflow, index out of range, loop without progress nor allocate beyond a linear bound (Verus, no preconditions beyond call-site facts). The nom grammar, cross-reference stream decoding, object streams, CMaps and text decoding are covered by the bounded sweep only.',
